@@ -440,7 +440,7 @@ func (c *RetryClient) Retry(ctx context.Context) {
 		oldRetryQueue := append([]retryFn{}, c.retryQueue...)
 		c.retryQueue = nil
 
-		for _, retry := range oldRetryQueue {
+		for i, retry := range oldRetryQueue {
 			c.muStats.Lock()
 			c.stats.TotalRetries++
 			c.muStats.Unlock()
@@ -448,7 +448,7 @@ func (c *RetryClient) Retry(ctx context.Context) {
 			err := retry(ctx, cli)
 			if retryErr, ok := err.(ErrorWithRetry); ok {
 				c.retryQueue = append(c.retryQueue, retryErr.Retry)
-				c.retryQueue = append(c.retryQueue, oldRetryQueue...)
+				c.retryQueue = append(c.retryQueue, oldRetryQueue[i+1:]...)
 				break
 			}
 		}
